@@ -244,7 +244,7 @@ func (e *Exec) applyContract(fr *Frame, ins ssa.Instruction, ctr *Contract, name
 		}
 	}
 	// call-site hints of the function under verification (proof decomposition: proved here, then assumed)
-	if fr.ctr != nil && fr.ctr.SiteHints != nil && !isGo {
+	if fr.ctr != nil && fr.ctr.SiteHints != nil {
 		for key, hints := range fr.ctr.SiteHints {
 			if !strings.HasSuffix(site, key) {
 				continue
